@@ -346,35 +346,38 @@ theorem C10_integer_limits_full_read (n : Nat) (r : Bool) (s : Str) (i : Int) (h
   simp only [integerConvert, hl, if_false, hp, intEnforceLength_ok]
   by_cases h : i.natAbs < 10 ^ n <;> simp [intFits, h, bind, Except.bind, pure, Except.pure]
 
-/-- full-strength wrong-type law: only `int` (and `None`) is written -/
-def C10_integer_wrongty_full : Prop :=
-  ∀ (l : Option Nat) (r : Bool) (v : Val), v ≠ .none → (∀ i, v ≠ .int i) →
-    ∃ e, integerUnconvert l r v = .error e
-
-/-- false on the pinned tree: `bool <: int`, `Integer().unconvert(True) == "True"` (which does not read back) -/
-theorem C10_integer_wrongty_full_false : ¬ C10_integer_wrongty_full := by
-  intro h
-  obtain ⟨e, he⟩ := h none false (.bool true) (by simp) (by simp)
-  simp [integerUnconvert, intEnforceLength, bind, Except.bind, pure, Except.pure] at he
-
-theorem C10_integer_bool_text :
-    integerUnconvert none false (.bool true) = .ok (.str "True".toList) ∧
-    integerConvert none false (.str "True".toList) = .error .value := by
-  constructor
-  · rfl
-  · rfl
-
-theorem C10_integer_wrongty_partial (l : Option Nat) (r : Bool) (v : Val) (h1 : v ≠ .none) (h2 : ∀ i, v ≠ .int i)
-    (h3 : ∀ b, v ≠ .bool b) : integerUnconvert l r v = .error .type := by
+/-- wrong-type law, full strength (holds since `fix: Integer refuses bool values`): only `int` (and `None`) is
+    written; in particular a `bool` is refused on write and on read -/
+theorem C10_integer_wrongty_full (l : Option Nat) (r : Bool) (v : Val) (h1 : v ≠ .none) (h2 : ∀ i, v ≠ .int i) :
+    integerUnconvert l r v = .error .type := by
   cases v <;> simp_all [integerUnconvert]
 
-example : (Val.str "12".toList ≠ .none) ∧ (∀ i, Val.str "12".toList ≠ .int i) ∧ (∀ b, Val.str "12".toList ≠ .bool b) := by
-  simp
+theorem C10_integer_bool_refused (l : Option Nat) (r : Bool) (b : Bool) :
+    integerUnconvert l r (.bool b) = .error .type ∧ integerConvert l r (.bool b) = .error .type := ⟨rfl, rfl⟩
 
 /-! ### Decimal -/
 
-theorem decOfText_decToStr (d : Dec) : decOfText (decToStr d) = .ok d := by
-  simp [decOfText, decParse_decToStr]
+theorem decOfTextRaw_formatF (neg : Bool) (c : Nat) (e : Int) :
+    decOfTextRaw (decFormatF (.fin neg c e)) = .ok (Dec.renorm (.fin neg c e)) := by
+  simp [decOfTextRaw, decParse_decFormatF]
+
+theorem renorm_isFinite (neg : Bool) (c : Nat) (e : Int) : (Dec.renorm (.fin neg c e)).isFinite = true := by
+  simp only [Dec.renorm]; split <;> rfl
+
+theorem decOfText_formatF (neg : Bool) (c : Nat) (e : Int) :
+    decOfText (decFormatF (.fin neg c e)) = .ok (Dec.renorm (.fin neg c e)) := by
+  simp [decOfText, decOfTextRaw_formatF, renorm_isFinite, bind, Except.bind, pure, Except.pure]
+
+/-- whatever a text reads as is finite -/
+theorem decOfText_finite (s : Str) (d : Dec) (h : decOfText s = .ok d) : d.isFinite = true := by
+  simp only [decOfText, bind, Except.bind] at h
+  cases h1 : decOfTextRaw s with
+  | error e => simp [h1] at h
+  | ok d0 =>
+    simp only [h1] at h
+    by_cases hf : d0.isFinite = true
+    · simp [hf, pure, Except.pure] at h; subst h; exact hf
+    · simp [hf] at h
 
 /-- what reading a text yields -/
 theorem decimalConvert_str (q : Option Int) (r : Bool) (s : Str) (v : Val)
@@ -389,68 +392,126 @@ theorem decimalConvert_str (q : Option Int) (r : Bool) (s : Str) (v : Val)
     | error e => simp [h2] at h
     | ok d => simp only [h2] at h; injection h with h; exact ⟨d0, d, rfl, h2, h.symm⟩
 
-/-- inverse law without a scale: **every** decimal (any exponent, signed zeros, NaN with payload, sNaN, ±Infinity)
-    is written as `str(d)` and reads back as the same value -/
-theorem C10_decimal_inv (r : Bool) (d : Dec) :
-    decimalUnconvert none r (.dec d) = .ok (.str (decToStr d)) ∧
-    decimalConvert none r (.str (decToStr d)) = .ok (.dec d) := by
+/-- whatever a text reads as is a finite decimal (non-finite literals are refused; holds since
+    `fix: Decimal elements are written in plain notation and non-finite values are refused`) -/
+theorem C10_decimal_read_finite (q : Option Int) (r : Bool) (s : Str) (v : Val)
+    (h : decimalConvert q r (.str s) = .ok v) : ∃ neg c e, v = .dec (.fin neg c e) := by
+  obtain ⟨d0, d, h1, h2, rfl⟩ := decimalConvert_str q r s v h
+  have hf := decOfText_finite s d0 h1
+  cases q with
+  | none =>
+    simp [applyScale] at h2; subst h2
+    cases d0 <;> simp [Dec.isFinite] at hf
+    exact ⟨_, _, _, rfl⟩
+  | some qe =>
+    rcases quantize_ok d0 d qe h2 with ⟨n, c, rfl, _, _⟩ | ⟨n, p, p', hd, _⟩
+    · exact ⟨_, _, _, rfl⟩
+    · subst hd; simp [Dec.isFinite] at hf
+
+/-- `value.same_quantum(self.scale)` when a scale is declared -/
+def atQuantum (q : Option Int) (d : Dec) : Bool :=
+  match q with
+  | some qe => sameQuantum d qe
+  | none => true
+
+/-- limits on write: a value is written exactly when it is finite and (with a scale) at the quantum; the text is
+    `format(value, "f")` -/
+theorem C10_decimal_limits_write (q : Option Int) (r : Bool) (d : Dec) :
+    decimalUnconvert q r (.dec d) =
+      if atQuantum q d && d.isFinite then .ok (.str (decFormatF d)) else .error .value := by
+  cases q with
+  | none => cases hf : d.isFinite <;> simp [decimalUnconvert, atQuantum, hf]
+  | some qe =>
+    cases hq : sameQuantum d qe <;> cases hf : d.isFinite <;> simp [decimalUnconvert, atQuantum, hq, hf]
+
+/-- non-finite values are refused on write and non-finite literals on read -/
+theorem C10_decimal_nonfinite_refused (q : Option Int) (r : Bool) (d : Dec) (h : d.isFinite = false) :
+    decimalUnconvert q r (.dec d) = .error .value := by
+  rw [C10_decimal_limits_write]; simp [h]
+
+/-- inverse law without a scale, exact: every finite decimal with exponent ≤ 0 (any coefficient, signed zeros) is
+    written in plain notation and reads back with the same sign, coefficient and exponent -/
+theorem C10_decimal_inv (r : Bool) (neg : Bool) (c : Nat) (e : Int) (he : e ≤ 0) :
+    decimalUnconvert none r (.dec (.fin neg c e)) = .ok (.str (decFormatF (.fin neg c e))) ∧
+    decimalConvert none r (.str (decFormatF (.fin neg c e))) = .ok (.dec (.fin neg c e)) := by
   refine ⟨rfl, ?_⟩
-  simp [decimalConvert, decOfText_decToStr, applyScale, bind, Except.bind, pure, Except.pure]
+  simp [decimalConvert, decOfText_formatF, Dec.renorm_of_nonpos neg c e he, applyScale, bind, Except.bind, pure,
+    Except.pure]
 
-theorem C10_decimal_canon (r : Bool) (s : Str) (v : Val) (h : decimalConvert none r (.str s) = .ok v) :
-    ∃ t, decimalUnconvert none r v = .ok t ∧ decimalConvert none r t = .ok v := by
-  obtain ⟨d0, d, _, _, rfl⟩ := decimalConvert_str none r s v h
-  exact ⟨_, (C10_decimal_inv r d).1, (C10_decimal_inv r d).2⟩
+/-- inverse law without a scale, numeric form: a finite decimal with a positive exponent reads back as the same
+    number rescaled to exponent 0 (`c · 10^e`, exponent 0) -/
+theorem C10_decimal_inv_numeric (r : Bool) (neg : Bool) (c : Nat) (e : Int) (he : e > 0) :
+    decimalUnconvert none r (.dec (.fin neg c e)) = .ok (.str (decFormatF (.fin neg c e))) ∧
+    decimalConvert none r (.str (decFormatF (.fin neg c e))) = .ok (.dec (.fin neg (c * 10 ^ e.toNat) 0)) := by
+  refine ⟨rfl, ?_⟩
+  simp [decimalConvert, decOfText_formatF, Dec.renorm, he, applyScale, bind, Except.bind, pure, Except.pure]
 
-/-- limits on write with a scale: written exactly when the value is finite with the exponent of the quantum -/
-theorem C10_decimal_limits_write (qe : Int) (r : Bool) (d : Dec) :
-    decimalUnconvert (some qe) r (.dec d) =
-      if sameQuantum d qe then .ok (.str (decToStr d)) else .error .value := rfl
+/-- full-strength inverse law (exact triple for every finite decimal) -/
+def C10_decimal_inv_full : Prop :=
+  ∀ (r : Bool) (neg : Bool) (c : Nat) (e : Int), ∃ t,
+    decimalUnconvert none r (.dec (.fin neg c e)) = .ok (.str t) ∧
+    decimalConvert none r (.str t) = .ok (.dec (.fin neg c e))
 
-/-- limits on read with a scale: whatever finite value is read has the exponent of the quantum and fits the
-    precision of the context -/
-theorem C10_decimal_limits_read (qe : Int) (r : Bool) (s : Str) (d : Dec)
-    (h : decimalConvert (some qe) r (.str s) = .ok (.dec d)) (hf : d.isFinite = true) :
-    ∃ n c, d = .fin n c qe ∧ fitsPrec c = true := by
-  obtain ⟨d0, d1, _, h2, hv⟩ := decimalConvert_str (some qe) r s _ h
-  injection hv with hv
-  subst hv
-  rcases quantize_ok d0 d qe h2 with ⟨n, c, rfl, hc, _⟩ | ⟨n, p, p', _, rfl⟩
+/-- false: plain notation cannot carry a positive exponent — `Decimal('1E+2')` is written `100` and reads back as
+    `Decimal('100')` (numerically equal; consequence of writing what OFX requires) -/
+theorem C10_decimal_inv_full_false : ¬ C10_decimal_inv_full := by
+  intro h
+  obtain ⟨t, h1, h2⟩ := h false false 1 2
+  have ht : t = "100".toList := by
+    have : decimalUnconvert none false (.dec (.fin false 1 2)) = .ok (.str "100".toList) := by rfl
+    rw [this] at h1; injection h1 with h1; injection h1 with h1; exact h1.symm
+  subst ht
+  have : decimalConvert none false (.str "100".toList) = .ok (.dec (.fin false 100 0)) := by rfl
+  rw [this] at h2
+  injection h2 with h2; injection h2 with h2
+  exact absurd h2 (by decide)
+
+/-- canonical text without a scale: whatever is read with exponent ≤ 0 is written as a text that reads back to it -/
+theorem C10_decimal_canon (r : Bool) (s : Str) (neg : Bool) (c : Nat) (e : Int)
+    (h : decimalConvert none r (.str s) = .ok (.dec (.fin neg c e))) (he : e ≤ 0) :
+    ∃ t, decimalUnconvert none r (.dec (.fin neg c e)) = .ok t ∧ decimalConvert none r t = .ok (.dec (.fin neg c e)) :=
+  ⟨_, (C10_decimal_inv r neg c e he).1, (C10_decimal_inv r neg c e he).2⟩
+
+/-- … and for a positive exponent (only reachable from an exponent literal such as `1E+2`, which the lenient read
+    still accepts) the canonical text reads to the renormalised value -/
+theorem C10_decimal_canon_numeric (r : Bool) (neg : Bool) (c : Nat) (e : Int) (he : e > 0) :
+    ∃ t, decimalUnconvert none r (.dec (.fin neg c e)) = .ok t ∧
+      decimalConvert none r t = .ok (.dec (.fin neg (c * 10 ^ e.toNat) 0)) :=
+  ⟨_, (C10_decimal_inv_numeric r neg c e he).1, (C10_decimal_inv_numeric r neg c e he).2⟩
+
+/-- limits on read with a scale: whatever is read is finite, has the exponent of the quantum and fits the precision
+    of the context -/
+theorem C10_decimal_limits_read (qe : Int) (r : Bool) (s : Str) (v : Val)
+    (h : decimalConvert (some qe) r (.str s) = .ok v) :
+    ∃ n c, v = .dec (.fin n c qe) ∧ fitsPrec c = true := by
+  obtain ⟨d0, d1, h1, h2, rfl⟩ := decimalConvert_str (some qe) r s _ h
+  have hf := decOfText_finite s d0 h1
+  rcases quantize_ok d0 d1 qe h2 with ⟨n, c, rfl, hc, _⟩ | ⟨n, p, p', hd, _⟩
   · exact ⟨n, c, rfl, hc⟩
-  · simp [Dec.isFinite] at hf
+  · subst hd; simp [Dec.isFinite] at hf
 
-/-- inverse law with a scale: every finite value at the quantum whose coefficient fits the context precision -/
-theorem C10_decimal_inv_scaled (qe : Int) (r : Bool) (n : Bool) (c : Nat) (hc : fitsPrec c = true) :
-    decimalUnconvert (some qe) r (.dec (.fin n c qe)) = .ok (.str (decToStr (.fin n c qe))) ∧
-    decimalConvert (some qe) r (.str (decToStr (.fin n c qe))) = .ok (.dec (.fin n c qe)) := by
+/-- inverse law with a scale (quantum exponent `qe ≤ 0`, i.e. any scale ≥ 0): every finite value at the quantum whose
+    coefficient fits the context precision -/
+theorem C10_decimal_inv_scaled (qe : Int) (hq : qe ≤ 0) (r : Bool) (n : Bool) (c : Nat) (hc : fitsPrec c = true) :
+    decimalUnconvert (some qe) r (.dec (.fin n c qe)) = .ok (.str (decFormatF (.fin n c qe))) ∧
+    decimalConvert (some qe) r (.str (decFormatF (.fin n c qe))) = .ok (.dec (.fin n c qe)) := by
   constructor
-  · rw [C10_decimal_limits_write]; simp [sameQuantum]
-  · simp [decimalConvert, decOfText_decToStr, applyScale, quantize_self n c qe hc, bind, Except.bind, pure,
-      Except.pure]
+  · rw [C10_decimal_limits_write]; simp [atQuantum, sameQuantum, Dec.isFinite]
+  · simp [decimalConvert, decOfText_formatF, Dec.renorm_of_nonpos n c qe hq, applyScale, quantize_self n c qe hc, bind,
+      Except.bind, pure, Except.pure]
 
 example : fitsPrec 9999999999999999999999999999 = true := by decide +kernel
 
-/-- full-strength canonical-text law with a scale -/
-def C10_decimal_canon_scaled_full : Prop :=
-  ∀ (qe : Int) (r : Bool) (s : Str) (v : Val), decimalConvert (some qe) r (.str s) = .ok v →
-    ∃ t, decimalUnconvert (some qe) r v = .ok t ∧ decimalConvert (some qe) r t = .ok v
-
-/-- false on the pinned tree: `Decimal(2).convert("NaN")` is accepted, and the NaN it returns cannot be written -/
-theorem C10_decimal_canon_scaled_full_false : ¬ C10_decimal_canon_scaled_full := by
-  intro h
-  have hc : decimalConvert (some (-2)) false (.str "NaN".toList) = .ok (.dec (.nan false false 0)) := by rfl
-  obtain ⟨t, h1, _⟩ := h (-2) false "NaN".toList _ hc
-  have : decimalUnconvert (some (-2)) false (.dec (.nan false false 0)) = .error .value := rfl
-  rw [this] at h1
-  exact absurd h1 (by simp)
-
-theorem C10_decimal_canon_scaled_partial (qe : Int) (r : Bool) (s : Str) (d : Dec)
-    (h : decimalConvert (some qe) r (.str s) = .ok (.dec d)) (hf : d.isFinite = true) :
-    ∃ t, decimalUnconvert (some qe) r (.dec d) = .ok t ∧ decimalConvert (some qe) r t = .ok (.dec d) := by
-  obtain ⟨n, c, rfl, hc⟩ := C10_decimal_limits_read qe r s d h hf
-  exact ⟨_, (C10_decimal_inv_scaled qe r n c hc).1, (C10_decimal_inv_scaled qe r n c hc).2⟩
+/-- canonical text with a scale, full strength (holds since non-finite literals are refused): every accepted text is
+    written as a text that reads back to the same value -/
+theorem C10_decimal_canon_scaled (qe : Int) (hq : qe ≤ 0) (r : Bool) (s : Str) (v : Val)
+    (h : decimalConvert (some qe) r (.str s) = .ok v) :
+    ∃ t, decimalUnconvert (some qe) r v = .ok t ∧ decimalConvert (some qe) r t = .ok v := by
+  obtain ⟨n, c, rfl, hc⟩ := C10_decimal_limits_read qe r s v h
+  exact ⟨_, (C10_decimal_inv_scaled qe hq r n c hc).1, (C10_decimal_inv_scaled qe hq r n c hc).2⟩
 
 example : decimalConvert (some (-2)) false (.str "1,005".toList) = .ok (.dec (.fin false 100 (-2))) := by rfl
+example : decimalConvert (some (-2)) false (.str "NaN".toList) = .error .spec := by rfl
 
 /-- a text never reads as `None` for Decimal (the empty text raises) -/
 theorem C10_decimal_text_not_none (q : Option Int) (r : Bool) (s : Str) : decimalConvert q r (.str s) ≠ .ok .none := by
@@ -462,19 +523,9 @@ theorem C10_decimal_wrongty (q : Option Int) (r : Bool) (v : Val) (h1 : v ≠ .n
     decimalUnconvert q r v = .error .type := by
   cases v <;> simp_all [decimalUnconvert]
 
-/-- full-strength quantum: `Decimal(scale = n)` rounds to `10^-n` -/
-def C10_decimal_scale_full : Prop := ∀ n : Nat, quantumOfScale n = some (.fin false 1 (-(n : Int)))
-
-/-- false on the pinned tree: `Decimal(0)` builds the text `0.1`, i.e. the quantum of `Decimal(1)` -/
-theorem C10_decimal_scale_full_false : ¬ C10_decimal_scale_full := by
-  intro h
-  have := h 0
-  rw [show quantumOfScale 0 = some (.fin false 1 (-1)) from by rfl] at this
-  exact absurd this (by decide)
-
-/-- the quantum actually stored, for every scale -/
-theorem C10_decimal_scale_partial (n : Nat) :
-    quantumOfScale n = some (.fin false 1 (-((max n 1 : Nat) : Int))) := quantumOfScale_eq n
+/-- the quantum, full strength (holds since `fix: Decimal(scale=0) quantizes to whole numbers`):
+    `Decimal(scale = n)` rounds to `10^-n`, for every `n` including 0 -/
+theorem C10_decimal_scale_full (n : Nat) : quantumOfScale n = .fin false 1 (-(n : Int)) := rfl
 
 /-! ### ListElement -/
 
